@@ -30,7 +30,9 @@ EVENTS = (["next-timer", "+100ms", "user-send"]
           + [f"notify({k},{o:+d})" for k in ("genuine", "forged") for o in OFFSETS]
           + ["sync-reply", "sync-reply-twice", "sync-reply-wrong-tag", "sync-reply-forged"]
           + [f"wrapped-indication({k},{o:+d})" for k in ("genuine", "forged", "wrong-key") for o in OFFSETS]
-          + ["plain-frames-of-every-service", "wrapped-unparsable-inner-frames", "disconnect+connect"])
+          + ["plain-frames-of-every-service", "wrapped-unparsable-inner-frames", "disconnect+connect"]
+          # unauthentic frames claiming a group time one hour ahead (whatever is remembered from them must never be applied, not even later)
+          + ["notify(forged,+3600000)", "wrapped-indication(forged,+3600000)", "wrapped-indication(wrong-key,+3600000)"])
 # services a secure multicast node still has to accept unencrypted (03.08.09: discovery and self description)
 PLAIN_ALLOWED = {0x0201, 0x0202, 0x0203, 0x0204, 0x020B, 0x020C}
 CEMI = bytes.fromhex("2900bcd011010901010081")
@@ -74,8 +76,15 @@ def make(steps: int, uniform_max: bool, family: str = "", latency_ms: int = LATE
                     h = st._expected_notify_handler  # noqa: SLF001
                     return h[0] if h is not None else None
 
+                auth_timers: list[tuple[int, float]] = []   # (timer value carried by an authentic frame, when it was fed)
+
                 def feed(raw: bytes, label: str, authentic: bool, expect_forward: bool | None) -> None:
                     before = st._clock_difference  # noqa: SLF001
+                    if authentic:
+                        service = raw[2:4]
+                        carried = int.from_bytes(raw[8:14] if service == b"\x09\x50" else raw[6:12], "big") if service in (b"\x09\x50", b"\x09\x55") else None
+                        if carried is not None:
+                            auth_timers.append((carried, loop.time()))
                     n_del = len(delivered)
                     try:
                         r.transport.data_received_callback(raw, PEER)
@@ -93,6 +102,17 @@ def make(steps: int, uniform_max: bool, family: str = "", latency_ms: int = LATE
                         viols.append((f"forwarding-wrong:{label.split('(')[0]}:{'forwarded' if got else 'dropped'}", f"{label}: forwarded={got}, reference {expect_forward}; timer_authenticated={st.timer_authenticated}; events={events}"))
 
                 def do(ev: str) -> None:
+                    cd0 = st._clock_difference  # noqa: SLF001
+                    _do(ev)
+                    loop.settle()
+                    cd1 = r.transport.secure_timer._clock_difference  # noqa: SLF001
+                    if r.transport.secure_timer is st and cd1 > cd0:
+                        # the group timer was moved forward during this event: some authentic frame must have carried that value
+                        now_timer = local_timer()
+                        if not any(tv + (loop.time() - t_fed) * 1000 >= now_timer - 2 for tv, t_fed in auth_timers):
+                            viols.append(("timer-moved-forward-without-authentic-frame", f"during {ev}: clock difference {cd0} -> {cd1} (timer now {now_timer}), authentic frames so far carried {auth_timers}; events={events}"))
+
+                def _do(ev: str) -> None:
                     events.append((round(loop.time(), 3), ev))
                     if ev == "next-timer":
                         loop.advance_next()
